@@ -1,11 +1,11 @@
 #!/usr/bin/env python3
 """Refresh tools/properties_meta.json (theorem list per property) from lean/PGT/Props/*.lean."""
-import re, json, os
+import re, json, os, glob
 V = os.path.dirname(os.path.dirname(os.path.abspath(__file__)))
 meta = json.load(open(f'{V}/tools/properties_meta.json'))
 for i in range(1, 21):
     k = f'C{i:02d}'
-    src = open(f'{V}/lean/PGT/Props/{k}.lean').read()
+    src = ''.join(open(p).read() + '\n' for p in [f'{V}/lean/PGT/Props/{k}.lean'] + sorted(glob.glob(f'{V}/lean/PGT/Props/{k}_*.lean')))
     code = re.sub(r'/-.*?-/', '', src, flags=re.S)
     code = re.sub(r'--.*', '', code)
     meta.setdefault(k, {})['theorems'] = re.findall(r'^\s*theorem\s+([A-Za-z0-9_.\']+)', code, flags=re.M)
